@@ -44,7 +44,7 @@ ASSUMPTIONS = [
     "from-scratch metadata is produced by the real daemon through a cacheless UnconfiguredTree on the same files and memoised by file contents (it depends on nothing else)",
 ]
 BOUNDS = {
-    "quick": "2 backends x all histories of <= 3 events over the 10-event alphabet (after the populating read), every state probed by a read",
+    "quick": "2 backends x all histories of <= 3 events over the 10-event alphabet (after the populating read), every state probed by a read; md5 backend additionally every two-event history containing an ebuild content edit that keeps the mtime",
     "thorough": "2 backends x (all histories of <= 4 events over the 10-event alphabet + all histories of <= 3 events over the 15-event alphabet)",
 }
 
@@ -640,6 +640,14 @@ def tasks(tier):
             for a in EV_QUICK:
                 for b in EV_QUICK:
                     out.append((be, "q", (a, b), depth))
+            if be == "md5":
+                # content edit that keeps the ebuild's mtime (only a checksum-validated cache can notice it):
+                # every two-event history containing it, so that a validity decision taken from a remembered
+                # (path, mtime) instead of the current checksum shows up inside one history
+                for b in EV_QUICK + ["Eb0"]:
+                    out.append((be, "e", ("Eb0", b), 2))
+                for a in EV_QUICK:
+                    out.append((be, "e", (a, "Eb0"), 2))
         else:
             out.append((be, "q", (), 1))
             for a in EV_QUICK:
@@ -658,7 +666,7 @@ def work(task):
 
     logging.getLogger("pkgcore").setLevel(logging.CRITICAL)
     be, alpha, root, depth = task
-    events = EV_QUICK if alpha == "q" else EV_QUICK + EV_EXTRA
+    events = EV_QUICK if alpha == "q" else (EV_QUICK + ["Eb0"] if alpha == "e" else EV_QUICK + EV_EXTRA)
     res = run_partition(be, events, root, depth)
     if res is None:
         return {"evals": 0, "classes": {}, "viol": [], "samples": [], "counters": {"states": 0, "transitions": 0, "roots_not_enabled": 1}}
